@@ -67,8 +67,13 @@ static void setup(int depth, int msg, int slack)
 	base_len = (size_t)D * (size_t)M + (size_t)slack;
 	A.store = malloc(base_len);
 	B.store = malloc(base_len);
-	memset(A.store, 0xA7, base_len);
-	memset(B.store, 0xA7, base_len);
+	if (base_len <= 65536) {
+		memset(A.store, 0xA7, base_len);
+		memset(B.store, 0xA7, base_len);
+	} else if (slack) {
+		memset(A.store + base_len - (size_t)slack, 0xA7, (size_t)slack);
+		memset(B.store + base_len - (size_t)slack, 0xA7, (size_t)slack);
+	}
 	memset(&A.q, 0x55, sizeof(A.q));
 	messageq_init(&A.q, A.store, base_len, (size_t)M);
 	messageq_t tmp = MESSAGEQ_VAR_INIT(B.store, base_len, M);
@@ -90,16 +95,23 @@ static void setup(int depth, int msg, int slack)
 		     (unsigned)atomic_load(&B.q.num_free));
 }
 
+/* large messages carry the pattern in their first and last 32 bytes only */
 static void fill(uint8_t *p, uint32_t ser)
 {
-	for (int i = 0; i < M; i++)
+	for (int i = 0; i < M; i++) {
+		if (M > 96 && i == 32)
+			i = M - 32;
 		p[i] = (uint8_t)(ser * 31u + (uint32_t)i * 7u + 1u);
+	}
 }
 static bool intact(const uint8_t *p, uint32_t ser)
 {
-	for (int i = 0; i < M; i++)
+	for (int i = 0; i < M; i++) {
+		if (M > 96 && i == 32)
+			i = M - 32;
 		if (p[i] != (uint8_t)(ser * 31u + (uint32_t)i * 7u + 1u))
 			return false;
+	}
 	return true;
 }
 
@@ -247,7 +259,7 @@ static bool apply(int op, uint32_t k)
 	return false;
 }
 
-static const int sizes_all[] = { 1, 2, 3, 4, 5, 7, 8, 12, 16, 24, 33, 100, 255, 256, 1000 };
+static const int sizes_all[] = { 1, 2, 3, 4, 5, 7, 8, 12, 16, 24, 33, 100, 255, 256, 1000, 2115, 4096, 16384, 65535 };
 static const int sizes_exh[] = { 1, 3, 4, 8, 33 };
 
 static void exhaustive(void)
